@@ -111,6 +111,42 @@ SPECS = {
                 "over S. non-trivial = >=1 pattern occurring twice inside one member and >=1 absent pattern",
         "assumptions": DICT_ASSUME,
     },
+    "C06": {
+        **_meta('Generated cases of every kind are saved and reloaded through both loaders (hash load options 1..3); the loaded objects must answer a generated query list exactly like the original and pass the reference-model sweeps; two images plus a sentinel are read back-to-back by the own loader with tellg checked after each.', 'property-based testing (rapidcheck), differential original-vs-loaded + reference model + stream position oracle'),
+        "stages": dict_stages(ALL, 40, 8, floors={"c06_stream_of_two": 200}),
+        "rule": "case as C01; non-trivial = n>=2 and the two-image stream was read back completely (tellg after each own-loader "
+                "call == bytes written, sentinel intact); distinct = hash of (kind, params, S, op bytes)",
+        "assumptions": DICT_ASSUME + ["HASHRPDACBlocks is loaded through its own loader only (the generic dispatcher has no case for tag 125)"],
+    },
+    "C07": {
+        **_meta('Everything the other dictionary drivers do (all sweeps, all states, abandoned iterators, repeated saves), plus run-time MEMALLOC 1..32768 and bucket sizes 0/1, executed under ASan (recover mode) + UBSan array-bounds/null with fatal signals and a CPU watchdog caught per call; every sanitizer report, signal or escaped exception is an event.', 'property-based testing + sanitizers as oracle (ASan/UBSan reports, caught fatal signals, CPU-time watchdog on tiny inputs)'),
+        "stages": dict_stages(ALL, 40, 8, floors={"memalloc_small": 200, "n_mult_bucket": 100, "maxlen_ge128": 100}),
+        "rule": "case as C01 plus MEMALLOC class and bucket clamp; non-trivial = n==1, n multiple of the bucket size, a string "
+                ">=128 bytes, a reduced MEMALLOC or an abandoned iterator; distinct = hash of the decoded case",
+        "assumptions": DICT_ASSUME + ["leaks and new[]/delete mismatches are not reported (not part of the statement)",
+                                      "memcmp over-reads that stop at a guaranteed earlier difference are not reported (strict_memcmp=0)",
+                                      "uninitialised reads are only visible through their effects here (valgrind tier: thorough)"],
+    },
+    "C08": {
+        **_meta('Histories build,(query|save)* and load,(query|save)* on every kind: images of repeated saves compared byte for byte, answers before/after each save compared, two independent builds compared, re-saved images of loaded objects compared or reloaded and re-queried.', 'property-based testing (rapidcheck), byte-equality + differential before/after oracle'),
+        "stages": dict_stages(ALL, 40, 8, floors={"c08_rebuild_equal": 200}),
+        "rule": "case as C01 with a generated query list; non-trivial = n>=2 and >=2 saves on one object interleaved with queries",
+        "assumptions": DICT_ASSUME,
+    },
+    "C12": {
+        **_meta('Metamorphic: one string set, two generated legal parameter vectors of one kind (or two different order-preserving kinds); all answers must agree (IDs too for ordered kinds, membership / string multisets for hash kinds and XBW); bucket sizes 0/1 must give the bucket-2 image and a warning.', 'property-based testing (rapidcheck), metamorphic relation across parameter vectors and kinds'),
+        "stages": dict_stages(ALL, 50, 8, floors={"c12_layout_differs": 200, "c12_cross_kind": 100, "c12_clamp": 40}),
+        "rule": "case = (kind, two parameter vectors | second ordered kind, S, queries); non-trivial = n>=3 and the vectors differ "
+                "in a layout parameter (bucket count, table size, sampling, cut, threads), or a cross-kind pair, or a clamp case",
+        "assumptions": DICT_ASSUME,
+    },
+    "C14": {
+        **_meta('Model-based history testing: one object receives a generated sequence of 8-57 queries (members, absent, bad IDs, prefix, substring, rank, table, several iterators drained in interleaved order); repeated queries must repeat their answer and a pristine twin loaded from the same image must give the same answer to the same single query; every pattern buffer is compared after the call.', 'stateful property-based testing (rapidcheck), twin-object differential oracle + pattern-buffer guard'),
+        "stages": dict_stages(ALL, 40, 6, floors={"c14_interleaved_iterators": 100, "c14_failed_then_ok": 200}),
+        "rule": "case = (kind, params, S, object state, history); non-trivial = >=1 twin comparison and >=1 repeated query in the "
+                "history; distinct = hash of the decoded case",
+        "assumptions": DICT_ASSUME,
+    },
     "C13": {
         **_meta('Every iterator the API returns is drained under a canary/strlen/ASan protocol check and compared with extract(k) and the reference order; scans are steered to start inside buckets.', 'property-based testing (rapidcheck), iterator protocol oracle + reference model'),
         "stages": dict_stages(ALL, 50, 10),
